@@ -121,6 +121,9 @@ class DocEngine:
                    ("reopen", (6 * cfg["p_reopen"]) if self._reopenable() else 0)]
         if self.prop in ("C04", "C03"):
             weights += [("clone_swap", 1), ("merge_styles", 1 if self.prop == "C04" else 0), ("save_other", 2 if self.shadow else 0)]
+        if self.prop == "C11":
+            weights = [("touch", 10 * cfg["p_touch"]), ("edit", 3), ("rich_para", 6), ("add_file", 1), ("save_set", 10 * cfg["p_save"] if self.n_saves < cfg["max_saves"] else 0),
+                       ("reopen", (3 * cfg["p_reopen"]) if self._reopenable() else 0)]
         name = rng.weighted(weights, "op")
         op = {"op": name}
         dt = self._dt(rng)
@@ -175,11 +178,64 @@ class DocEngine:
             else:
                 op["how"] = rng.weighted([("path", 4), ("bytesio", 2), ("folder", 2), ("foreign", 1)], "rhow")
             op["salt"] = rng.randint(0, 9, "salt")
+        elif name == "rich_para":
+            op["xml"] = self._gen_rich_para(rng, n)
+        elif name == "save_set":
+            variants = [("zip", True), ("folder", None), ("folder", False), ("xml", None), ("xml", False), ("zip", None)]
+            k = rng.randint(1, 4, "nvariants")
+            op["variants"] = [{"packaging": pk, "pretty": pr, "target": ("bytesio" if pk != "folder" and rng.chance(0.5, "vt") else "path")} for pk, pr in rng.sample(variants, k, "variants")]
+            if rng.chance(self.cfg["p_fault"], "fault?"):
+                op["fault"] = {"site": rng.choice(["writestr", "write_bytes", "bytesio_write", "mkdir", "rmtree"], "fsite"), "k": rng.randint(1, 10, "fk"), "errno": rng.choice(["ENOSPC", "EIO"], "ferr"), "partial": rng.chance(0.5, "fpartial"), "at": rng.randint(0, k - 1, "fat")}
         elif name == "clone_swap":
             pass
         elif name == "merge_styles":
             op["src"] = "sample:" + rng.choice(["lpod_styles.odt", "span_style.odt", "md_style.odt", "example.odt", "background.odp", "example.odp", "frame_image.odp"], "msrc")
         return op
+
+    def _gen_rich_para(self, rng, n):
+        """a text:p / text:h mixing text with text:s, tab, line-break, spans,
+        links, notes, frames, bookmarks ... in seeded adjacency"""
+        words = ["alpha", "beta", "gamma", "delta", "x", "Hello", "world"]
+
+        def inline(depth):
+            k = rng.weighted([("text", 6), ("s", 3), ("s2", 2), ("tab", 3), ("lb", 3), ("span", 3 if depth < 2 else 0), ("a", 2 if depth < 2 else 0),
+                              ("note", 1.5 if depth == 0 else 0), ("frame", 1 if depth == 0 else 0), ("bookmark", 1.5), ("annotation", 1 if depth == 0 else 0),
+                              ("refmark", 1), ("pagenum", 1), ("softbreak", 0.5)], "inl")
+            if k == "text":
+                w = rng.choice(words, "w")
+                return w + (" " if rng.chance(0.5, "sp") else "")
+            if k == "s":
+                return "<text:s/>"
+            if k == "s2":
+                return '<text:s text:c="%d"/>' % rng.randint(2, 4, "c")
+            if k == "tab":
+                return "<text:tab/>"
+            if k == "lb":
+                return "<text:line-break/>"
+            if k == "span":
+                return '<text:span text:style-name="T1">' + "".join(inline(depth + 1) for _ in range(rng.randint(0, 3, "nspan"))) + "</text:span>"
+            if k == "a":
+                return '<text:a xlink:type="simple" xlink:href="http://example.com/">' + "".join(inline(depth + 1) for _ in range(rng.randint(1, 2, "na"))) + "</text:a>"
+            if k == "note":
+                return ('<text:note text:id="ftn%d" text:note-class="footnote"><text:note-citation>%d</text:note-citation><text:note-body>'
+                        '<text:p text:style-name="Footnote">note %d<text:tab/>body</text:p></text:note-body></text:note>' % (n, n, n))
+            if k == "frame":
+                return ('<draw:frame draw:name="fr%d" text:anchor-type="as-char" svg:width="2cm" svg:height="1cm"><draw:text-box>'
+                        '<text:p>in frame<text:s/>%d</text:p></draw:text-box></draw:frame>' % (n, n))
+            if k == "bookmark":
+                return '<text:bookmark text:name="bm%d"/>' % n
+            if k == "annotation":
+                return '<office:annotation><dc:creator>sim</dc:creator><dc:date>2024-01-01T00:00:00</dc:date><text:p>annot %d</text:p></office:annotation>' % n
+            if k == "refmark":
+                return '<text:reference-mark text:name="rm%d"/>' % n
+            if k == "pagenum":
+                return '<text:page-number text:select-page="current">1</text:page-number>'
+            return "<text:soft-page-break/>"
+
+        body = "".join(inline(0) for _ in range(rng.randint(1, 7, "ninl")))
+        if rng.chance(0.25, "h?"):
+            return '<text:h text:outline-level="1">%s</text:h>' % body
+        return "<text:p>%s</text:p>" % body
 
     def _reopenable(self):
         return any(a["packaging"] in ("zip", "folder") and not a.get("dead") for a in self.artifacts)
@@ -380,6 +436,257 @@ class DocEngine:
         st.over[name] = data
         st.touched.add(ds.MANIFEST)
         self.flags.add("added_file")
+
+    def _op_rich_para(self, op):
+        from odfdo import Element
+
+        doc, st = self.sut.doc, self.sut.store
+        if self._doc_type() != "text":
+            return []
+        res, exc = self._call(lambda: doc.body.append(Element.from_tag(op["xml"])), "rich_para")
+        self._outcome = f"rich_para:{'exc' if exc else 'ok'}"
+        if exc is None:
+            st.touched.add("content.xml")
+            self.n_edits += 1
+            self.flags.add("rich_para")
+        return []
+
+    # ---- C11: the same state saved under several configurations -------------------
+    def _memory(self):
+        """the in-memory document through the public API: serialisation of the
+        five standard XML parts (this parses them) + bytes of the other parts"""
+        doc, st = self.sut.doc, self.sut.store
+        mem = {}
+        for n in ds.STD_XML:
+            if n in st.names():
+                mem[n] = doc.get_part(n).serialize()
+                st.touched.add(n)
+        for n in st.names():
+            if n not in mem and not n.endswith("/") and n != ds.RDF:
+                if n in st.touched:
+                    mem[n] = doc.get_part(n).serialize()  # a parsed sub-document part: the live tree counts
+                else:
+                    mem[n] = doc.container.get_part(n)
+        return mem
+
+    @staticmethod
+    def _mem_diff(a, b):
+        for n in a:
+            if n not in b:
+                return f"{n} disappeared from memory"
+            x, y = a[n], b[n]
+            if n == "meta.xml":
+                x, y = ds.canon(n, x), ds.canon(n, y)  # generator stamp apart
+            if x != y:
+                if n in ds.STD_XML and n != "meta.xml":
+                    cx, cy = xmlref.c14n(x), xmlref.c14n(y)
+                    if cx == cy:
+                        continue  # same infoset (only the XML declaration / quoting differs)
+                    tx, ty = xmlref.paragraphs_text(x), xmlref.paragraphs_text(y)
+                    kind = "readable text changed" if tx != ty else "white space / layout changed"
+                    return f"{n}: in-memory serialisation changed ({kind}, {len(x)} -> {len(y)} bytes)"
+                return f"{n}: changed in memory"
+        return None
+
+    def _variant_parts(self, art):
+        """{part name: root element} of the XML parts of an artefact"""
+        if art["packaging"] == "xml":
+            data = art.get("data")
+            if data is None:
+                with open(art["path"], "rb") as f:
+                    data = f.read()
+            return {"flat": etree.fromstring(data)}
+        pkg = self._read_art(art)
+        return {n: etree.fromstring(pkg.parts[n]) for n in ("content.xml", "styles.xml", "meta.xml", "settings.xml") if n in pkg.parts}
+
+    def _op_save_set(self, op):
+        doc, st = self.sut.doc, self.sut.store
+        vs = []
+        try:
+            m0 = self._memory()
+        except Exception as e:
+            self._outcome = "save_set:memory-unreadable"
+            return []
+        base_feats = self._feats()
+        # reference: plain zip
+        ref_buf = io.BytesIO()
+        res, exc = self._call(lambda: doc.save(ref_buf, pretty=False), "save")
+        if exc is not None:
+            self._outcome = "save_set:ref-raises"
+            return [Violation("C11", "save-raises", "save_set", base_feats + ["pk:zip", "pretty:False"], type(exc).__name__, str(exc))]
+        self.n_saves += 1
+        ref = xmlref.read_package(ref_buf.getvalue())
+        d = self._mem_diff(m0, self._memory())
+        if d:
+            self._outcome = "save_set:memory-changed"
+            return [Violation("C11", "memory-changed-by-save", "save_set", base_feats + ["pk:zip", "pretty:False"], None, d)]
+        ref_roots = {n: etree.fromstring(ref.parts[n]) for n in ("content.xml", "styles.xml", "meta.xml", "settings.xml") if n in ref.parts}
+        self.artifacts.append({"packaging": "zip", "data": ref_buf.getvalue(), "expected": {}, "mimetype": st.mimetype, "feats": base_feats})
+        fault = op.get("fault")
+        out = []
+        for i, v in enumerate(op["variants"]):
+            pk, pr = v["packaging"], v["pretty"]
+            feats = base_feats + ["pk:" + pk, "pretty:" + str(pr)]
+            if v["target"] == "bytesio" and pk != "folder":
+                target = simenv.FaultyBytesIO()
+            else:
+                target = self.sut.newpath("var")
+            kw = {"packaging": pk}
+            if pr is not None:
+                kw["pretty"] = pr
+            armed = bool(fault) and fault.get("at") == i
+            if armed:
+                self.env.arm(fault)
+            res, exc = self._call(lambda: doc.save(target, **kw), "save")
+            fired = self.env.disarm() if armed else False
+            if fired:
+                self.n_faults += 1
+                self.stats.probe("fault:" + fault["site"] + ":" + fault["errno"])
+                feats = feats + ["fault:" + fault["site"]]
+            # (ii)/(iv) memory as it was, whether the save returned or raised
+            d = self._mem_diff(m0, self._memory())
+            if d:
+                out.append(Violation("C11", "memory-changed-by-save", "save_set", feats + (["save_raised"] if exc is not None else []), None, d))
+                break
+            if exc is not None:
+                if fired:
+                    self.stats.probe("fault_survived_by_raise")
+                    continue
+                out.append(Violation("C11", "save-raises", "save_set", feats, type(exc).__name__, f"{type(exc).__name__}: {exc}"))
+                break
+            self.n_saves += 1
+            self.stats.probe(f"variant:{pk}:{pr}")
+            art = {"packaging": pk, "expected": {}, "mimetype": st.mimetype, "feats": feats}
+            if isinstance(target, io.BytesIO):
+                art["data"] = target.getvalue()
+            else:
+                art["given"] = target
+                art["path"] = self._resolved(target, pk)
+            try:
+                parts = self._variant_parts(art)
+            except Exception as e:
+                out.append(Violation("C11", "variant-unreadable", "save_set", feats, type(e).__name__, str(e)))
+                break
+            v1 = self._compare_variant(ref_roots, parts, pk, feats)
+            if v1:
+                out.append(v1)
+                break
+        if out:
+            self._outcome = "save_set:" + out[0].oracle
+            return out
+        # (iii) a further plain save writes the reference content again
+        buf2 = io.BytesIO()
+        res, exc = self._call(lambda: doc.save(buf2, pretty=False), "save")
+        if exc is not None:
+            return [Violation("C11", "save-raises", "save_set", base_feats + ["pk:zip", "pretty:False", "after_variants"], type(exc).__name__, str(exc))]
+        again = xmlref.read_package(buf2.getvalue())
+        for n in sorted(ref.parts):
+            if n not in again.parts:
+                return [Violation("C11", "second-plain-save-differs", "save_set", base_feats + ["after_variants"], None, f"{n} missing")]
+            if ds.canon(n, again.parts[n]) != ds.canon(n, ref.parts[n]):
+                return [Violation("C11", "second-plain-save-differs", "save_set", base_feats + ["after_variants", "part:" + n], None, f"{n} differs from the first plain save")]
+        self._outcome = "save_set:ok"
+        return []
+
+    def _compare_variant(self, ref_roots, parts, pk, feats):
+        SKIP = (xmlref.q("office:binary-data"),)
+        if pk == "xml":
+            flat = parts["flat"]
+            want = []
+            for n in ("meta.xml", "settings.xml", "styles.xml", "content.xml"):
+                if n in ref_roots:
+                    want += xmlref.paragraphs_text(ref_roots[n])
+            got = xmlref.paragraphs_text(flat)
+            # by design the flat export replaces every draw:image by an embedded
+            # copy: an (empty) text:p that LibreOffice puts inside draw:image is not kept
+            # (only in content.xml: images of styles.xml are left alone by the export)
+            n_in_image = sum(1 for n in ref_roots if n == "content.xml" for p in ref_roots[n].iter(xmlref.X_P) if p.getparent() is not None and p.getparent().tag == xmlref.q("draw:image"))
+            if n_in_image:
+                want = []
+                for n in ("meta.xml", "settings.xml", "styles.xml", "content.xml"):
+                    if n in ref_roots:
+                        want += [(el.tag.rsplit("}", 1)[1], xmlref.odf_text(el)) for el in ref_roots[n].iter(xmlref.X_P, xmlref.X_H)
+                                 if not (n == "content.xml" and el.getparent() is not None and el.getparent().tag == xmlref.q("draw:image"))]
+            if got != want:
+                i = next((k for k, (a, b) in enumerate(zip(got, want)) if a != b), min(len(got), len(want)))
+                extra = []
+                if len(got) == len(want):
+                    gels = list(flat.iter(xmlref.X_P, xmlref.X_H))
+                    wels = []
+                    for n in ("meta.xml", "settings.xml", "styles.xml", "content.xml"):
+                        if n in ref_roots:
+                            wels += [el for el in ref_roots[n].iter(xmlref.X_P, xmlref.X_H)
+                                     if not (n == "content.xml" and el.getparent() is not None and el.getparent().tag == xmlref.q("draw:image"))]
+                    if len(gels) == len(wels):
+                        extra = self._leak_site(gels[i], wels[i], None)
+                return Violation("C11", "text-changed", "save_set", feats + extra, None, f"paragraph #{i}: flat xml {got[i] if i < len(got) else None!r} vs plain zip {want[i] if i < len(want) else None!r}")
+            wl = []
+            for n in ("meta.xml", "settings.xml", "styles.xml", "content.xml"):
+                if n in ref_roots:
+                    wl += xmlref.significant_text(ref_roots[n])
+            gl = [t for t in xmlref.significant_text(flat) if t[0] != xmlref.q("office:binary-data")]
+            if sorted(gl) != sorted(wl):
+                return Violation("C11", "leaf-text-changed", "save_set", feats, None, "character data of leaf elements differs between flat xml and plain zip")
+            return None
+        for n, rroot in ref_roots.items():
+            if n not in parts:
+                return Violation("C11", "part-missing", "save_set", feats, None, n)
+            got, want = xmlref.paragraphs_text(parts[n]), xmlref.paragraphs_text(rroot)
+            if got != want:
+                i = next((k for k, (a, b) in enumerate(zip(got, want)) if a != b), min(len(got), len(want)))
+                pair = self._leak_site(parts[n], rroot, i)
+                return Violation("C11", "text-changed", "save_set", feats + ["part:" + n] + pair, None, f"{n} paragraph #{i}: {got[i] if i < len(got) else None!r} vs plain {want[i] if i < len(want) else None!r}")
+            if xmlref.skeleton(parts[n]) != xmlref.skeleton(rroot):
+                return Violation("C11", "structure-changed", "save_set", feats + ["part:" + n], None, f"{n}: element structure / attribute values differ from the plain save")
+            if xmlref.significant_text(parts[n]) != xmlref.significant_text(rroot) and n != "meta.xml":
+                return Violation("C11", "leaf-text-changed", "save_set", feats + ["part:" + n], None, f"{n}: character data of a leaf element differs from the plain save")
+        return None
+
+    @staticmethod
+    def _leak_site(got_root, want_root, i):
+        """classify what differs in paragraph #i between a pretty variant and the
+        plain save: 'only_inline_tail_indent' when every difference is a
+        '\\n + spaces' tail given to an element that had no tail (pretty_indent's
+        treatment of inline elements that are not text containers), plus the
+        (parent>child) pairs where it happened"""
+        import re as _re
+
+        feats = []
+        try:
+            if i is None:
+                gp, wp = got_root, want_root
+            else:
+                gp = list(got_root.iter(xmlref.X_P, xmlref.X_H))[i]
+                wp = list(want_root.iter(xmlref.X_P, xmlref.X_H))[i]
+            only_indent = True
+            pairs = set()
+            def walk(e):
+                # (the flat export replaces draw:image subtrees: not compared)
+                yield e
+                if e.tag != xmlref.q("draw:image"):
+                    for c in e:
+                        if isinstance(c.tag, str):
+                            yield from walk(c)
+
+            for g, w in zip(walk(gp), walk(wp)):
+                if g.tag != w.tag:
+                    only_indent = False
+                    break
+                if g is not gp and (g.tail or "") != (w.tail or ""):
+                    if not w.tail and _re.fullmatch(r"\n *", g.tail or ""):
+                        par = g.getparent()
+                        pairs.add("leak:" + par.tag.rsplit("}", 1)[1] + ">" + g.tag.rsplit("}", 1)[1])
+                    else:
+                        only_indent = False
+                if (g.text or "") != (w.text or ""):
+                    if not ((w.text or "") == "" and _re.fullmatch(r"\n *", g.text or "") and len(g)) and not ((g.text or "").startswith(w.text or "") and _re.fullmatch(r"\n *", (g.text or "")[len(w.text or ""):]) and len(g) and not g.tag.startswith(xmlref._TEXT_NS)):
+                        only_indent = False
+            if only_indent and pairs:
+                feats.append("only_inline_tail_indent")
+            feats += sorted(pairs)[:4]
+        except Exception:
+            pass
+        return feats
 
     def _op_set_part(self, op):
         doc, st = self.sut.doc, self.sut.store
@@ -793,7 +1100,7 @@ class DocEngine:
                 new.base[n] = b""
                 continue
             try:
-                if n in ds.STD_XML:
+                if n in ds.STD_XML or n in st.touched:
                     new.base[n] = doc.get_part(n).serialize()
                     new.touched.add(n)
                 else:
